@@ -161,3 +161,9 @@ void inst_intermesh_all()
   inst_intermesh<Geometry::ConformalMesh<Shape::Simplex<3>>, Space::Lagrange2::Element>();
 #endif
 }
+
+// mesh permutations (kernel/geometry/mesh_permutation.hpp): GridTransfer reads get_perm() / get_inv_perm() of both meshes, so every member that fills
+// or copies the per-dimension permutation arrays belongs to the fact base (rule E2.mesh-permutation-dims)
+#include <kernel/geometry/mesh_permutation.hpp>
+template class FEAT::Geometry::MeshPermutation<FEAT::Shape::Hypercube<2>>;
+template class FEAT::Geometry::MeshPermutation<FEAT::Shape::Simplex<3>>;
